@@ -5,9 +5,11 @@
 
    [env_of_module m = Some e] also *defines* the fragment of the language whose generated code is claimed to
    compile: it is [None] where the generator is known to emit Go that the compiler rejects (tags outside
-   0..255 - the tag parameter of the codec calls is a byte; a fixed array of bytes - known finding; an array of
+   0..255 - the tag parameter of the codec calls is a byte; an array of
    non-positive length; a default literal that does not fit the member's Go type; a map key that is a
-   vector, map or struct; a type of another module - files with includes are validated by the harness only). *)
+   vector, map or struct) and where the codec model does not reach: a fixed array of bytes (SimpleList on the wire
+   since d066d98; Codec/GenCodec.v has LIST arrays only) and a type of another module - such programs are validated
+   by the harness's monitors only. *)
 From Coq Require Import String.
 From Coq Require Import List NArith ZArith Bool Lia.
 From TarsV Require Import Base.Hex Idl.Lexer Idl.Parser Codec.GenCodec Codec.Corr.
